@@ -157,6 +157,31 @@ func c08Gen(r *Rng, maxEvents int) c08History {
 		h.JSON = `{"IgnoreFileNameVarFlag":1}`
 	}
 	c08Rel := func(i int) string { return c08RelL(h.Layout, i) }
+	// sparse histories: most files are clean most of the time, so that single events take the workspace to and from the state
+	// in which no file has any diagnostic, and unsaved edits are mostly syntax errors
+	sparse := r.Fork(0x73706172).Chance(1, 4)
+	pick := func() string {
+		if sparse {
+			switch k := r.Intn(20); {
+			case k < 11:
+				return "clean"
+			case k < 14:
+				return "defglobal"
+			default:
+				return r.Pick([]string{"require", "useglobal", "requiremissing", "dofile", "undefined", "usefilenameglobal", "useannoclass", "annoclass"})
+			}
+		}
+		return r.Pick(c08VariantNames)
+	}
+	next := func(cur string, edit bool) string {
+		if sparse {
+			if edit && r.Bool() {
+				return r.Pick([]string{"syntax", "syntaxB"})
+			}
+			return pick()
+		}
+		return c08Next(r, cur)
+	}
 	exists := map[int]bool{}
 	open := map[int]bool{}
 	dirty := map[int]bool{}
@@ -164,12 +189,40 @@ func c08Gen(r *Rng, maxEvents int) c08History {
 	bufVar := map[int]string{} // variant of the last unsaved edit
 	for i := 0; i < n; i++ {
 		if r.Chance(4, 5) {
-			h.Init[c08Rel(i)] = r.Pick(c08VariantNames)
+			h.Init[c08Rel(i)] = pick()
 			onDisk[i] = h.Init[c08Rel(i)]
 			exists[i] = true
 		}
 	}
 	ne := r.Range(5, maxEvents)
+	if rd := r.Fork(0x64697265); rd.Chance(1, 8) {
+		// directed opening: the only saved diagnostic of the whole workspace belongs to a file that is being edited into a syntax
+		// error, and an event on another file then removes that diagnostic (the workspace becomes free of saved diagnostics while
+		// a buffer is broken); the random events continue from there
+		sparse = true
+		h.Layout = "flat"
+		h.Init = map[string]string{}
+		for i := 0; i < n; i++ {
+			exists[i], onDisk[i] = false, ""
+		}
+		user := rd.Pick([]string{"require", "dofile"})
+		h.Init[c08Rel(0)], onDisk[0], exists[0] = user, user, true
+		for i := 2; i < n; i++ {
+			if rd.Bool() {
+				h.Init[c08Rel(i)], onDisk[i], exists[i] = "clean", "clean", true
+			}
+		}
+		open[0], dirty[0], bufVar[0] = true, true, rd.Pick([]string{"syntax", "syntaxB"})
+		h.Events = append(h.Events, c08Event{Op: "open", File: c08Rel(0)}, c08Event{Op: "edit", File: c08Rel(0), Variant: bufVar[0]})
+		exists[1], onDisk[1] = true, rd.Pick([]string{"clean", "defglobal"})
+		h.Events = append(h.Events, c08Event{Op: "create", File: c08Rel(1), Variant: onDisk[1]})
+		if rd.Bool() {
+			// ... and back: the required file disappears again
+			exists[1] = false
+			h.Events = append(h.Events, c08Event{Op: "delete", File: c08Rel(1)})
+		}
+		ne += len(h.Events)
+	}
 	var gen func(allowBatch bool) (c08Event, bool)
 	gen = func(allowBatch bool) (c08Event, bool) {
 		i := r.Intn(n)
@@ -181,14 +234,14 @@ func c08Gen(r *Rng, maxEvents int) c08History {
 					return c08Event{Op: "blip", File: rel}, true // reported created and deleted: it never exists afterwards
 				}
 				exists[i] = true
-				onDisk[i] = r.Pick(c08VariantNames)
+				onDisk[i] = pick()
 				return c08Event{Op: "create", File: rel, Variant: onDisk[i]}, true
 			}
 		case k <= 2:
 			// external change of a file that is not open, or open and dirty (an open clean document would be reloaded by the editor)
 			if exists[i] && (!open[i] || dirty[i]) {
 				if !r.Chance(1, 4) { // one in four is a touch: announced as changed, bytes identical
-					onDisk[i] = c08Next(r, onDisk[i])
+					onDisk[i] = next(onDisk[i], false)
 				}
 				if !open[i] && r.Chance(1, 5) {
 					return c08Event{Op: "replace", File: rel, Variant: onDisk[i]}, true
@@ -212,7 +265,7 @@ func c08Gen(r *Rng, maxEvents int) c08History {
 					cur = bufVar[i]
 				}
 				dirty[i] = true
-				bufVar[i] = c08Next(r, cur)
+				bufVar[i] = next(cur, true)
 				return c08Event{Op: "edit", File: rel, Variant: bufVar[i]}, true
 			}
 		case k <= 11:
@@ -238,7 +291,7 @@ func c08Gen(r *Rng, maxEvents int) c08History {
 							continue
 						}
 						exists[ii] = true
-						onDisk[ii] = r.Pick(c08VariantNames)
+						onDisk[ii] = pick()
 						bb = append(bb, c08Event{Op: "create", File: rl, Variant: onDisk[ii]})
 					} else if !open[ii] {
 						if !onlyChanges && r.Bool() {
@@ -247,7 +300,7 @@ func c08Gen(r *Rng, maxEvents int) c08History {
 						} else if r.Chance(1, 3) {
 							touches = append(touches, c08Event{Op: "change", File: rl, Variant: onDisk[ii]}) // a touch: identical bytes
 						} else {
-							onDisk[ii] = c08Next(r, onDisk[ii])
+							onDisk[ii] = next(onDisk[ii], false)
 							bb = append(bb, c08Event{Op: "change", File: rl, Variant: onDisk[ii]})
 						}
 					}
